@@ -459,4 +459,96 @@ theorem givesCheck_eq (p : Pos) (ok : Sq) (H : GcWF p ok) (m : Mv) (hp : pseudo 
     · exact gives_castle p ok H m hp hC.1 (hkk hC.1) hC.2
     · exact gives_simple p ok H m hp hkk hE' hC
 
+/-! ## legal moves -/
+
+theorem Change.own_kingAt_after {b b' : Board} {w : Bool} {V F : Sq → Prop} (h : Change b b' w V F) (k t : Sq)
+    (hk : KingAt b w k) (hVk : V k) (ht : b'[t] = (if w then WKING else BKING))
+    (hF : ∀ q, F q → q = t ∨ b'[q] ≠ (if w then WKING else BKING)) : KingAt b' w t := by
+  refine ⟨ht, ?_⟩
+  intro s hs
+  by_cases hV : V s
+  · rw [h.vac s hV] at hs; exact absurd hs (zero_ne_king w)
+  · by_cases hFs : F s
+    · rcases hF s hFs with e | e
+      · exact e
+      · exact absurd hs e
+    · rw [h.other s hV hFs] at hs
+      have := hk.2 s hs
+      subst this; exact absurd hVk hV
+
+/-- where the mover's king stands after a king move -/
+theorem own_king_after (p : Pos) (k : Sq) (hk : KingAt p.b p.wtm k) (m : Mv) (hp : pseudo p m = true)
+    (hk1 : kind p.b[m.f] = 1) : KingAt (apply p m).b p.wtm m.t := by
+  have hfk : m.f = k := hk.2 _ (king_of_kind _ _ (pseudo_own_f p m hp) hk1)
+  subst hfk
+  have hE : PosImpl.isEpS p m = false := by unfold PosImpl.isEpS; rw [getP_sq, hk1]; rfl
+  by_cases hC : kind p.b[m.f] = 1 ∧ (m.t.val = m.f.val + 2 ∨ m.t.val + 2 = m.f.val)
+  · have key : ∀ (r r' : Sq) (σ : Int), CastleGeo p.b (apply p m).b p.wtm m.f m.t r r' σ →
+        KingAt (apply p m).b p.wtm m.t := by
+      intro r r' σ g
+      obtain ⟨d1, d2, d3, d4, d5, d6⟩ := g.distinct
+      refine g.change.own_kingAt_after m.f m.t hk (Or.inl rfl) (by rw [g.after m.t, if_neg d5, if_neg d4, if_pos rfl]) ?_
+      intro q hq
+      have hq' : q = m.t ∨ q = r' := hq
+      rcases hq' with e | e
+      · exact Or.inl e
+      · right; rw [e, g.after r', if_pos rfl]; exact rook_ne_king p.wtm
+    rcases hC.2 with ht | ht
+    · exact key _ _ _ (castle_geo_short p m hp hk1 ht).1
+    · exact key _ _ _ (castle_geo_long p m hp hk1 ht).1
+  · obtain ⟨hch, ht⟩ := change_simple p m hp hE hC
+    have hpr : m.promo = 0 := PosImpl.pseudo_other p m hp (by rw [getP_sq, hk1]; decide)
+    refine hch.own_kingAt_after m.f m.t hk rfl ?_ (fun q hq => Or.inl hq)
+    rw [ht]; unfold newPc; rw [hpr]; simp only [bne_self_eq_false, Bool.false_eq_true, if_false]; exact hk.1
+
+/-- a legal king move does not end next to the opponent's king -/
+theorem legal_king_apart (p : Pos) (k ok : Sq) (h1 : GenWF p k) (H : GcWF p ok) (m : Mv) (hl : legalB p m = true)
+    (hk1 : kind p.b[m.f] = 1) : kingGeom ok m.t = false := by
+  unfold legalB at hl
+  simp only [Bool.and_eq_true, Bool.not_eq_true'] at hl
+  obtain ⟨hp, hsafe⟩ := hl
+  have hv' := validB_apply p H.valid m hp
+  have hk' := own_king_after p k h1.king m hp hk1
+  have hK' := oking_after p ok H m hp
+  rw [inCheck_of_kingAt _ hv' _ m.t hk'] at hsafe
+  apply Bool.eq_false_iff.2
+  intro hg
+  have : sqAttacked (apply p m).b p.wtm m.t (occBB (apply p m).b) = true := by
+    rw [sqAttacked_iff]
+    refine ⟨ok, by rw [hK'.1]; exact own_king (!p.wtm), ?_⟩
+    rw [atkFrom_king _ _ _ _ (by rw [hK'.1]; exact kind_king (!p.wtm)), kingGeom_swap]; exact hg
+  rw [this] at hsafe; cases hsafe
+
+/-- **`givesCheck` on legal moves**: for every legal move of a well-formed position, `MoveGen::givesCheck` says whether the
+    opponent is in check after the move -/
+theorem givesCheck_legal (p : Pos) (k ok : Sq) (h1 : GenWF p k) (H : GcWF p ok) (m : Mv) (hl : legalB p m = true) :
+    givesCheck p ok m = givesCheckSpec p m := by
+  have hp : pseudo p m = true := by unfold legalB at hl; simp only [Bool.and_eq_true] at hl; exact hl.1
+  exact givesCheck_eq p ok H m hp (legal_king_apart p k ok h1 H m hl)
+
+/-! ## the Boolean form of the hypotheses -/
+
+theorem gcWF_of_b (p : Pos) (ok : Sq) (h : gcWFb p ok = true) : GcWF p ok := by
+  unfold gcWFb at h
+  simp only [Bool.and_eq_true, List.all_eq_true, allSq, List.mem_finRange, true_imp_iff, decide_eq_true_eq, beq_iff_eq,
+    Bool.or_eq_true, Bool.not_eq_true', beq_eq_false_iff_ne] at h
+  obtain ⟨⟨⟨⟨hv, hk1⟩, hk2⟩, hs⟩, hep⟩ := h
+  have e : (if p.wtm = false then WKING else BKING) = (if (!p.wtm) = true then WKING else BKING) := by cases p.wtm <;> rfl
+  rw [e] at hk1
+  simp only [e] at hk2
+  refine ⟨hv, ⟨hk1, ?_⟩, hs, ?_⟩
+  · intro s hs'
+    rcases hk2 s with h | h
+    · exact absurd hs' h
+    · exact h
+  · constructor
+    · intro e he
+      rw [he] at hep
+      simp only [Bool.and_eq_true, beq_iff_eq] at hep
+      exact ⟨hep.1.1, hep.1.2⟩
+    · intro e he
+      rw [he] at hep
+      simp only [Bool.and_eq_true, beq_iff_eq] at hep
+      exact hep.2
+
 end Chess.Texel
